@@ -73,7 +73,7 @@ except Exception:          # fixtures of another property's run: the harness bel
 
 
 def _read_default(k):
-    from stone.backends.python_helpers import fmt_class
+    from stone.backends.python_helpers import fmt_class, fmt_var
     from stone.ir import TagRef
     from vlib import fixtures
     group, pkg, nsname, tname, fname = SITES[k]
@@ -81,7 +81,7 @@ def _read_default(k):
     f = [x for x in api.namespaces[nsname].data_type_by_name[tname].fields if x.name == fname][0]
     modname = {'class': 'class_'}.get(nsname, nsname)
     cls = getattr(fixtures.module(pkg, modname), fmt_class(tname))
-    got = getattr(cls(), fname)
+    got = getattr(cls(), fmt_var(fname))
     want = f.default
     if isinstance(want, TagRef):
         umod = fixtures.module(pkg, {'class': 'class_'}.get(want.union_data_type.namespace.name,
